@@ -10,7 +10,7 @@ way each writer does it (`self.__init__(self._array)` = `initRows`, or
 The model is parametrised by `Cfg`: which of the proposed repairs is present in the tree
 that is being checked.  `Cfg.current` is `/repo` HEAD (all five repairs committed);
 `Cfg.asIs` / `Cfg.beforeC06` / `Cfg.beforePriority` are older variants; the flags switch, function by function,
-to the patched text of `/tmp/fix-proposals/{C05-ra-reads,C06-setitem-row-views,C06-array-row-views,C06-append-flat-row}.diff`.
+to the patched text of the since-applied repairs `{C05-ra-reads,C06-setitem-row-views,C06-array-row-views,C06-append-flat-row}.diff`.
 The harness holds the staged code to `Cfg.current` (and probes that every repair is in effect).
 
 Self-contained on purpose (`Model/Ragged.lean` of C05 models the read side).
